@@ -235,4 +235,10 @@ def opNames : List (String × Op) := [("Add", .Add), ("BitAnd", .BitAnd), ("BitO
 def uopNames : List (String × UOp) := [("Invert", .Invert), ("UAdd", .UAdd), ("USub", .USub)]
 def dunderNames : List (Dunder × String) := [(.d_abs, "__abs__"), (.d_add, "__add__"), (.d_and, "__and__"), (.d_bool, "__bool__"), (.d_ceil, "__ceil__"), (.d_divmod, "__divmod__"), (.d_eq, "__eq__"), (.d_float, "__float__"), (.d_floor, "__floor__"), (.d_floordiv, "__floordiv__"), (.d_ge, "__ge__"), (.d_gt, "__gt__"), (.d_int, "__int__"), (.d_invert, "__invert__"), (.d_le, "__le__"), (.d_lshift, "__lshift__"), (.d_lt, "__lt__"), (.d_matmul, "__matmul__"), (.d_mod, "__mod__"), (.d_mul, "__mul__"), (.d_ne, "__ne__"), (.d_neg, "__neg__"), (.d_or, "__or__"), (.d_pos, "__pos__"), (.d_pow, "__pow__"), (.d_radd, "__radd__"), (.d_rand, "__rand__"), (.d_rfloordiv, "__rfloordiv__"), (.d_rlshift, "__rlshift__"), (.d_rmatmul, "__rmatmul__"), (.d_rmod, "__rmod__"), (.d_rmul, "__rmul__"), (.d_ror, "__ror__"), (.d_rpow, "__rpow__"), (.d_rrshift, "__rrshift__"), (.d_rshift, "__rshift__"), (.d_rsub, "__rsub__"), (.d_rtruediv, "__rtruediv__"), (.d_rxor, "__rxor__"), (.d_sub, "__sub__"), (.d_truediv, "__truediv__"), (.d_trunc, "__trunc__"), (.d_xor, "__xor__")]
 
+/-- `trace_function`: the returned value is unpacked into a row when [it is a tuple and] `len(row) > unpackIfLenGt`,
+    handed on as one value when `len(row) > singleIfLenGt`, and dropped otherwise (AST of tracing/function.py) -/
+def unpackNeedsTuple : Bool := true
+def unpackIfLenGt : Nat := 0
+def singleIfLenGt : Nat := 0
+
 end GuppyVerif.C21
